@@ -10,6 +10,7 @@ import (
 	"strconv"
 	"strings"
 
+	"github.com/pingcap/kvproto/pkg/metapb"
 	"github.com/tikv/pd/pkg/btree"
 	"github.com/tikv/pd/server/core"
 
@@ -202,6 +203,32 @@ func (w *world) exec(op string) string {
 			return "ok"
 		}
 		return "absent"
+	case len(f) == 11 && f[0] == "rmstale":
+		// RemoveRegion with an OLDER RegionInfo of a cached id (what DropCacheRegion does when a heartbeat lands
+		// between its GetRegion and its RemoveRegion): afterwards the id must be gone from the map and from every
+		// per-store listing
+		sp := regionh.ParseSpec(f[1:])
+		bc.RemoveRegion(sp.Region())
+		var listed []string
+		seen := map[uint64]bool{}
+		for _, p := range append(append([]*metapb.Peer{}, sp.Peers...), sp.Pending...) {
+			st := p.GetStoreId()
+			if seen[st] {
+				continue
+			}
+			seen[st] = true
+			for _, r := range bc.GetStoreRegions(st) {
+				if r.GetID() == sp.ID {
+					listed = append(listed, strconv.FormatUint(st, 10))
+					break
+				}
+			}
+		}
+		l := "-"
+		if len(listed) > 0 {
+			l = strings.Join(listed, ",")
+		}
+		return fmt.Sprintf("ok get=%s listed=%s", regionh.IDs([]*core.RegionInfo{bc.GetRegion(sp.ID)}), l)
 	case len(f) == 11 && f[0] == "rmobj":
 		// RemoveRegion with an arbitrary RegionInfo (malformed stream only)
 		bc.RemoveRegion(regionh.ParseSpec(f[1:]).Region())
@@ -785,6 +812,50 @@ func (g *gen) mutate() {
 	}
 }
 
+// removeStale: "get; put with the leader moved (and possibly other pending peers); remove with the OLD object",
+// then look at every store of the region
+func (g *gen) removeStale() {
+	for _, r := range g.sorted() {
+		old := specOf(r)
+		var voters []pspec
+		for _, p := range old.peers {
+			if !p.learner {
+				voters = append(voters, p)
+			}
+		}
+		leaderIsVoter := false
+		for _, p := range voters {
+			if p.id == old.leader {
+				leaderIsVoter = true
+			}
+		}
+		if len(voters) < 2 || !leaderIsVoter || !g.r.Bool(1, 2) {
+			continue
+		}
+		cur := specOf(r)
+		for _, p := range voters {
+			if p.id != old.leader {
+				cur.leader = p.id
+			}
+		}
+		if g.r.Bool(1, 3) {
+			g.pickPending(cur)
+		}
+		cur.conf++
+		g.kinds["remove-stale"]++
+		g.w.run(g.t, "put "+cur.String())
+		g.w.run(g.t, "rmstale "+old.String())
+		for _, p := range old.peers {
+			g.w.run(g.t, fmt.Sprintf("stats %d", p.store))
+			g.w.run(g.t, fmt.Sprintf("sregions %d", p.store))
+			g.w.run(g.t, fmt.Sprintf("rand %s %d none 4", roles[g.r.Intn(4)], p.store))
+		}
+		g.w.run(g.t, "len")
+		g.w.run(g.t, "dump")
+		return
+	}
+}
+
 // bounce: leadership of a cached region with two voters goes back and forth while the store counters are polled
 func (g *gen) bounce() {
 	for _, r := range g.sorted() {
@@ -1117,6 +1188,9 @@ func (g *gen) sequence(maxOps int) {
 		}
 		if !g.bad && g.reads > 0 && g.r.Bool(1, 70) {
 			g.bounce()
+		}
+		if !g.bad && g.r.Bool(1, 40) {
+			g.removeStale()
 		}
 		if g.r.Bool(1, 6) {
 			g.w.run(g.t, "dump")
